@@ -3,9 +3,11 @@ package h
 import (
 	"fmt"
 	"math/rand"
+	"runtime"
 	"runtime/debug"
 	"sync"
 	"sync/atomic"
+	"time"
 )
 
 // ParProfile parameterises the real-parallelism family: goroutines that really run in parallel (no scheduler, no
@@ -111,12 +113,26 @@ func RunPar(seed int64, p ParProfile) (out []Ev) {
 						}
 						x.At(o, []W{wr}, false, 0)
 					}
+					if lr.Intn(12) == 0 {
+						return ErrFail // gives up: what it buffered must not be applied, and its transaction object not be shared
+					}
 					return nil
 				})
 			}
 		}()
 	}
-	wg.Wait()
+	done := make(chan struct{})
+	go func() { wg.Wait(); close(done) }()
+	select {
+	case <-done:
+	case <-time.After(180 * time.Second):
+		// the workload takes about a second; the harness itself never blocks outside the library's calls, so this
+		// is the library not returning from a legal call (recorded, and no specification action explains it)
+		buf := make([]byte, 1<<16)
+		buf = buf[:runtime.Stack(buf, true)]
+		w.T.Log(Ev{"e": "stuck", "t": "m", "what": "the writers did not finish within 180 s", "stack": string(buf)})
+		return w.T.Finish()
+	}
 	_ = rnd
 	w.Par = false
 	atomic.StoreInt32(&MergeYield, 0)
